@@ -1,5 +1,8 @@
 import GdcVerif.Model.Dct
 import GdcVerif.Lemmas.Dct
+import GdcVerif.Lemmas.DctDqt
+import GdcVerif.Lemmas.DctDetect
+import GdcVerif.Lemmas.DctHuff
 import GdcVerif.Spec.T81ZigZag
 /-!
   C11 — JPEG DCT codecs (Baseline / Extended): loss bounded by the declared quantisation.  PARTIAL.
@@ -13,9 +16,11 @@ import GdcVerif.Spec.T81ZigZag
   * quantiser contract on the generated 8-bit loop body (divisor 8·Q) and on `sequential12Quantize` /
     the 12-bit loop body: |c − d·quant(c)| ≤ d/2 for every coefficient and every divisor d ≥ 1;
   * edge replication index `min(8b+x, w−1)` is in 0..w−1 and the identity inside the image;
-  * DQT: the write-then-parse index map is the identity on 0..63 and, for sampled qualities, the parsed
-    table is the table the quantiser uses (model; all 100 qualities are tied to the real streams by the
-    correspondence op `jpg-dqt`).
+  * DQT: for every base table and every quality the bytes writeDQT emits parse back (parseDQT) to exactly the
+    table the quantiser uses — general proof (model; the model is tied to the real streams by `jpg-dqt`).
+  * detectBitDepth (fix 12cadee) skips segment payloads: the 12-bit decoder is selected for every stream whose
+    first frame header declares precision 12, whatever bytes DQT/APPn payloads contain (old witness kept).
+  * Huffman category coding of coefficients (EncodeCategory / ReceiveExtend) round-trips for every value.
   NOT proved: that the fixed-point DCT pair (`DCTISlow`/`IDCTISlow`, generated 1-D passes + hand 2-D glue) and the
   12-bit float IDCT are within the 2-grey-level allowance of the ideal transform — the DCT accuracy analysis
   is missing.  `c11_bound_FullStatement` is therefore a `def`; it is searched (harness, and `jpg-blockbound`
@@ -86,15 +91,50 @@ example : edgeIdx 2 5 17 = 16 ∧ edgeIdx 1 3 17 = 11 := by decide
 theorem c11_dqt_index_roundtrip :
     (dqtPayload 0 (Array.ofFn (n := 64) (fun i => (i.val : Int)))).bind (fun p => parseDQT8 p.tail)
       = some (Array.ofFn (n := 64) (fun i => (i.val : Int))) := by decide
-/-- (5') value round trip for two qualities, one of them the quality whose luminance table contains the bytes
-    FF C2 (all 100 qualities are tied to the real streams by the correspondence op `jpg-dqt`; a `decide` over all
-    100 × 2 tables exceeds the per-lemma time budget) -/
-theorem c11_dqt_roundtrip_sampled :
-    [9, 75].all (fun q =>
-      ((dqtPayload 0 (scaleQuantTable DefaultLuminanceQuantTable q)).bind (fun p => parseDQT8 p.tail)
-        == some (scaleQuantTable DefaultLuminanceQuantTable q)) &&
-      ((dqtPayload 1 (scaleQuantTable DefaultChrominanceQuantTable q)).bind (fun p => parseDQT8 p.tail)
-        == some (scaleQuantTable DefaultChrominanceQuantTable q))) = true := by decide
+/-- (5') DQT bytes emitted = table used, in general: for EVERY 64-entry base table and EVERY quality the payload
+    writeDQT emits (byte(id), then byte(q[ZigZag[j]])) is parsed by parseDQT's 8-bit branch back to exactly the
+    table `quantizeBlock` divides by.  (General proof: entries are in 1..255 by (1), ZigZag is a bijection of 0..63.) -/
+theorem c11_dqt_roundtrip_all (base : Array Int) (hb : base.size = 64) (quality id : Int) :
+    (dqtPayload id (scaleQuantTable base quality)).bind (fun p => parseDQT8 p.tail)
+      = some (scaleQuantTable base quality) := by
+  have hv := c11_scaled_table_valid base quality
+  apply dqt_roundtrip_general id _ (by rw [hv.1, hb])
+  intro n h
+  have := hv.2 _ (Array.getElem_mem_toList h)
+  omega
+example : (dqtPayload 0 (scaleQuantTable DefaultLuminanceQuantTable 9)).map (fun p => (p[22]?, p[23]?)) = some (some 255, some 194) := by
+  decide
+
+/-- (6) extended.detectBitDepth (since fix 12cadee) reads the precision from the first SOF0..3 header whatever the
+    payloads of the preceding segments contain: for any list of length-carrying segments (DQT, DHT, APPn, COM, …)
+    followed by a frame header with precision byte `prec`, the result is 12 iff `prec = 12` -/
+theorem c11_detect_skips_payloads (segs : List (Nat × List Nat)) (sofm l1 l2 prec : Nat) (tail : List Nat)
+    (hs : ∀ s ∈ segs, plainMarker s.1 = true ∧ s.2.length + 2 < 65536) (hm : 192 ≤ sofm ∧ sofm ≤ 195) :
+    detectBitDepth (0xFF :: 0xD8 :: (segsBytes segs ++ 0xFF :: sofm :: l1 :: l2 :: prec :: tail))
+      = if prec = 12 then 12 else 8 := by
+  simp only [detectBitDepth]
+  apply detect_segments segs _ sofm l1 l2 prec tail hs hm
+  have : (segsBytes segs).length ≥ segs.length := by
+    induction segs with
+    | nil => simp [segsBytes]
+    | cons a t ih =>
+      obtain ⟨m, p⟩ := a
+      have := ih (fun s h => hs s (by simp [h]))
+      simp [segsBytes, segBytes]; omega
+  simp; omega
+/-- regression anchor of finding c11-ext12-bitdepth-sniff-dqt (fixed by 12cadee): at quality 9 the luminance DQT
+    contains FF C2; the pre-fix raw scan answered 8 for the encoder's own 12-bit header, the current code answers 12 -/
+example : (seq12Header 9 1 1).map detectBitDepthOld = some 8 ∧ (seq12Header 9 1 1).map detectBitDepth = some 12 ∧
+    (seq12Header 50 33 7).map detectBitDepth = some 12 := by decide
+
+/-- (7) Huffman category coding of coefficients round-trips: for every non-zero value (|v| < 2^62) EncodeCategory
+    gives a category ≥ 1 and `cat` amplitude bits 0 ≤ bits < 2^cat (so WriteBits' mask keeps them), and the
+    decoder's EXTEND returns v.  (Baseline uses categories ≤ 11 for DC and ≤ 10 for AC, 12-bit ≤ 15/14.) -/
+theorem c11_category_roundtrip (v : Int) (hv : v ≠ 0) (hb : v.natAbs < 2 ^ 62) :
+    1 ≤ (encodeCategory v).1 ∧ 0 ≤ (encodeCategory v).2 ∧ (encodeCategory v).2 < (2 : Int) ^ (encodeCategory v).1 ∧
+    extend (encodeCategory v).1 (encodeCategory v).2 = v := category_roundtrip v hv hb
+example : encodeCategory (-37) = (6, 26) ∧ extend 6 26 = -37 ∧ encodeCategory 1023 = (10, 1023) ∧ encodeCategory 0 = (0, 0) := by
+  decide
 
 /-- The full per-block statement over the model (generated 1-D DCT passes + 2-D glue + generated quantiser):
     every sample of the reconstructed block is within (1/8)·Σ C(u)C(v)·Q[u,v] + 2 of the source sample.
